@@ -684,6 +684,198 @@ type def struct{}
 
 func (def) Pick(s *vrt.Sched, alts []vrt.Alt, costs []int) int { return 0 }
 
+// directPartitionBatches: the forwarded batch calls are calls in their own right (any sender can make them): a value of
+// the wrong length must be refused before anything is proposed - an error, nothing stored, a stored vector unchanged.
+func directPartitionBatches(run *ev.Run) int {
+	evals := 0
+	for _, op := range []string{"PartitionBatchInsert", "PartitionBatchUpdate"} {
+		for _, shape := range [][]int{{2}, {1, 2}, {2, 1}, {0}, {3}} { // value lengths of the items (the dataset has dimension 1)
+			evals++
+			func() {
+				fakes.Reset()
+				vrt.ResetContexts()
+				s := vrt.New()
+				s.Horizon = 2000000
+				s.Begin()
+				x := &explore.Exec{S: s}
+				nodes, meta := cluster(x, 1, [][]uint64{{1}}, nil)
+				defer func() {
+					s.End()
+					for _, n := range nodes {
+						n.Close()
+					}
+				}()
+				ds := nodes[0].Dataset(meta)
+				ix := ds.VerifPartition(0).Index()
+				ix.Insert(ids[3], []float32{5}, nil, 0)
+				var items []*pb.BatchItem
+				for i, l := range shape {
+					id := ids[i]
+					if op == "PartitionBatchUpdate" {
+						id = ids[3]
+					}
+					items = append(items, &pb.BatchItem{Id: id.Bytes(), Value: make([]float32, l)})
+				}
+				var errs map[uuid.UUID]error
+				var err error
+				done := false
+				s.Spawn("n1/caller", true, func() {
+					pid := uuid.FromBytesOrNil(meta.Partitions[0].Id)
+					if op == "PartitionBatchInsert" {
+						errs, err = ds.PartitionBatchInsert(context.Background(), pid, items)
+					} else {
+						errs, err = ds.PartitionBatchUpdate(context.Background(), pid, items)
+					}
+					done = true
+				})
+				s.Run(def{}, nil)
+				desc := fmt.Sprintf("%s with value lengths %v on a dataset of dimension 1", op, shape)
+				if t := s.Panicked(); t != nil {
+					run.Violation("panic:direct-partition-batch", fmt.Sprintf("%s: %v", desc, t.Panic), map[string]interface{}{"op": op, "lengths": shape})
+					return
+				}
+				if !done {
+					run.Violation("caller-never-returns:direct-partition-batch", desc, map[string]interface{}{"op": op, "lengths": shape})
+					return
+				}
+				if err == nil {
+					run.Violation("wrong-dimension-accepted:"+op, fmt.Sprintf("%s returned no error (item errors %v): a value of the wrong length reached the proposal", desc, errs), map[string]interface{}{"op": op, "lengths": shape})
+					return
+				}
+				for i := range shape {
+					if _, gerr := ix.Get(ids[i]); gerr == nil && op == "PartitionBatchInsert" {
+						run.Violation("wrong-dimension-batch-partly-applied:"+op, desc+": refused, yet an item of the batch is stored", map[string]interface{}{"op": op, "lengths": shape})
+						return
+					}
+				}
+				if v, gerr := ix.Get(ids[3]); gerr != nil || len(v) != 1 || v[0] != 5 {
+					run.Violation("wrong-dimension-batch-partly-applied:"+op, fmt.Sprintf("%s: refused, yet the stored vector is now %v (%v)", desc, v, gerr), map[string]interface{}{"op": op, "lengths": shape})
+				}
+			}()
+		}
+	}
+	return evals
+}
+
+// scenarioRestart: a node that restarts replays its log - every replayed entry notifies the id its proposer waited on in
+// the previous life. A caller of the new life, racing the replay, must get the outcome of ITS proposal: removing an id
+// that is not stored fails, whatever the replayed entries report to whomever.
+func scenarioRestart() *explore.Scenario {
+	return &explore.Scenario{
+		Name:      "F-caller-races-the-log-replay-after-a-restart",
+		Configure: func(s *vrt.Sched) { s.Horizon = 400000; s.DelayBounding = true },
+		Build: func(x *explore.Exec) func(vrt.EndReason) *explore.Violation {
+			fakes.Reset()
+			db := world.MemDB()
+			meta := world.DatasetMeta(1, pb.Space_Euclidean, [][]uint64{{1}}, 1)
+			var node *world.RNode
+			boot := func(life string) {
+				x.S.Spawn("n1/setup-"+life, false, func() {
+					node = world.NewRNode(1, db, []uint64{1})
+					if err := node.ApplyCreate(meta); err != nil {
+						panic(err)
+					}
+				})
+				x.Quiesce()
+			}
+			boot("first")
+			x.S.Spawn("n1/campaign-first", false, func() { node.Campaign(meta) })
+			x.Quiesce()
+			// first life: two acknowledged inserts
+			x.S.Spawn("n1/first-life-writer", false, func() {
+				ds := node.Dataset(meta)
+				if err := ds.Insert(context.Background(), ids[0], []float32{1}, nil); err != nil {
+					panic(err)
+				}
+				if err := ds.Insert(context.Background(), ids[1], []float32{2}, nil); err != nil {
+					panic(err)
+				}
+			})
+			x.Quiesce()
+			// crash (the disk survives), restart
+			x.S.KillPrefix("n1/")
+			node.Conn.Close()
+			boot("second")
+			x.OnCleanup(func() { node.Conn.Close(); db.Close() })
+			for _, t := range x.S.Timers() {
+				t.Stop()
+			}
+			var err error
+			done := false
+			ds := node.Dataset(meta)
+			// the election (after which the log is replayed) and the new life's first caller race each other
+			x.S.Spawn("n1/campaign-second", true, func() { node.Campaign(meta) })
+			x.S.Spawn("n1/caller0", true, func() {
+				err = ds.Remove(context.Background(), ids[2]) // never stored
+				done = true
+			})
+			return func(end vrt.EndReason) *explore.Violation {
+				if !done {
+					letTimePass(x)
+				}
+				x.Outcome = fmt.Sprintf("done=%v err=%v", done, err)
+				if done && err == nil {
+					return &explore.Violation{Key: "outcome-of-a-replayed-entry-delivered-to-a-new-caller", Desc: "after the restart a caller removed an id that was never stored and was told it succeeded: it received the outcome of an entry replayed from the previous life"}
+				}
+				return nil
+			}
+		},
+	}
+}
+
+// scenarioTwoBatches: two callers' batch removals on one partition, each with a stored and an absent id. Each caller must get
+// exactly its own absent id back - whatever the order in which the two entries are applied and the callers read their answers.
+func scenarioTwoBatches() *explore.Scenario {
+	return &explore.Scenario{
+		Name:      "E-two-concurrent-batch-removals-on-one-partition",
+		Configure: func(s *vrt.Sched) { s.Horizon = 200000; s.DelayBounding = true },
+		Build: func(x *explore.Exec) func(vrt.EndReason) *explore.Violation {
+			nodes, meta := cluster(x, 1, [][]uint64{{1}}, nil)
+			ds := nodes[0].Dataset(meta)
+			ix := ds.VerifPartition(0).Index()
+			ix.Insert(ids[0], []float32{1}, nil, 0)
+			ix.Insert(ids[1], []float32{2}, nil, 0)
+			for _, t := range x.S.Timers() {
+				t.Stop()
+			}
+			type res struct {
+				errs map[uuid.UUID]error
+				snap string
+				err  error
+				done bool
+			}
+			rs := make([]*res, 2)
+			for c := 0; c < 2; c++ {
+				c := c
+				rs[c] = &res{}
+				stored, absent := ids[c], ids[2+c]
+				x.S.Spawn(fmt.Sprintf("n1/caller%d", c), true, func() {
+					pid := uuid.FromBytesOrNil(meta.Partitions[0].Id)
+					rs[c].errs, rs[c].err = ds.PartitionBatchRemove(context.Background(), pid, []*pb.BatchItem{{Id: stored.Bytes()}, {Id: absent.Bytes()}})
+					rs[c].snap = fmt.Sprint(len(rs[c].errs))
+					rs[c].done = true
+				})
+			}
+			return func(end vrt.EndReason) *explore.Violation {
+				for c := 0; c < 2; c++ {
+					if !rs[c].done {
+						return &explore.Violation{Key: "caller-never-returns", Desc: strings.Join(x.S.Blocked(), "; ")}
+					}
+					if rs[c].err != nil {
+						return &explore.Violation{Key: "batch-fails-on-healthy-partition", Desc: fmt.Sprint(rs[c].err)}
+					}
+					absent, otherAbsent, stored := ids[2+c], ids[3-c], ids[c]
+					if rs[c].errs[absent] == nil || rs[c].errs[otherAbsent] != nil || rs[c].errs[stored] != nil || len(rs[c].errs) != 1 {
+						return &explore.Violation{Key: "batch-outcome-of-another-caller", Desc: fmt.Sprintf("caller %d removed [stored %x, absent %x] and was told %v (its answer had %s entries when it returned) - exactly its own absent id must be reported", c, stored[:2], absent[:2], rs[c].errs, rs[c].snap)}
+					}
+				}
+				x.Outcome = "ok"
+				return nil
+			}
+		},
+	}
+}
+
 // oneBatch runs one batch through node 1 of a 2-node cluster: partition 0 on node 1, 1 on node 2.
 func oneBatch(op string, shape []itemKind, names map[itemKind]string, fault string) (key, desc string) {
 	remoteFails := fault != ""
@@ -884,8 +1076,12 @@ func main() {
 	for _, kind := range []string{"ins", "upd", "rem"} {
 		scs = append(scs, scenarioDBatch(kind))
 	}
+	scs = append(scs, scenarioTwoBatches(), scenarioRestart())
 	before := func(run *ev.Run) ev.Coverage {
 		evals, distinct := batches(run)
+		direct := directPartitionBatches(run)
+		evals += direct
+		distinct += direct
 		return ev.Coverage{"evaluations": evals, "distinct_nontrivial": distinct, "traces_validated_against_impl": evals, "batch_shapes": evals,
 			"rule": "C: every batch of 1-3 items over {new, existing, wrong dimension, duplicate of the first item} x BatchInsert/Update/Remove on a 2-node cluster (items alternate between a local and a remote partition), error ids and contents vs a reference"}
 	}
